@@ -99,6 +99,20 @@ fn counters_never_wrap_onto_used_nonces() {
             if n[0] & 0x80 != half || n[0] & 0x7f != 0 || n[1..6].iter().any(|x| *x != 0) {
                 fail(&mut failing, format!("{}: a rotated-in key starts at counter {:02x?} (expected: same half {:#x}, bytes 1..=5 zero)", an, n, half));
             }
+            // ... and with a FRESH, unpredictable start: a key rotated into a slot that has already sealed datagrams (id 4 -> slot 0, the
+            // handshake key's; id 5 -> slot 1) must not continue that slot's sequence, and two rotations must not start at the same value
+            let (mut a, mut b) = pair(*algo);
+            if swap { std::mem::swap(&mut a, &mut b); }
+            for _ in 0..3 { let _ = seal(&mut a, &plain); }
+            let before = counter(&a);
+            a.rotate_key(LessSafeKey::new(UnboundKey::new(*algo, &nk[..algo.key_len()]).unwrap()), 4, true);
+            let start4 = counter(&a);
+            if a.current_key == 0 && start4 >= before && start4 <= before + 8 {
+                fail(&mut failing, format!("{}: a key rotated into the slot of the handshake key continues its nonce sequence ({:#x} -> {:#x}) instead of starting a fresh, unpredictable one", an, before, start4));
+            }
+            let (mut a2, _b2) = pair(*algo);
+            a2.rotate_key(LessSafeKey::new(UnboundKey::new(*algo, &nk[..algo.key_len()]).unwrap()), 4, true);
+            if counter(&a2) == start4 { fail(&mut failing, format!("{}: two rotated-in keys start at the same counter {:#x}", an, start4)); }
         }
     }
     assert_eq!(failing, 0);
